@@ -291,6 +291,15 @@ func (m *Mux) add(pattern string, hs *regHandler) {
 		panic("res: registration already done for pattern " + mergePattern(m.path, pattern))
 	}
 	setAndValidateParams(n, params)
+	// Group tags are resolved against the tokens following the last mount
+	// point, just like path params.
+	if mi := m.mountIndex(pattern); mi > 0 {
+		for i := range hs.group {
+			if hs.group[i].str == "" {
+				hs.group[i].idx -= mi
+			}
+		}
+	}
 	n.hs = hs
 
 	// Register listeners
@@ -393,6 +402,30 @@ func (m *Mux) fetch(pattern string, mount *node) (*node, []pathParam) {
 	}
 
 	return l, params
+}
+
+// mountIndex returns the token index following the last mount point passed
+// when walking the existing nodes of a pattern, or 0 if none is passed.
+func (m *Mux) mountIndex(pattern string) int {
+	mountIdx := 0
+	l := m.root
+	for i, t := range splitPattern(pattern) {
+		if l.mounted {
+			mountIdx = i
+		}
+		switch t[0] {
+		case pmark, pwild:
+			l = l.param
+		case fwild:
+			l = l.wild
+		default:
+			l = l.nodes[t]
+		}
+		if l == nil {
+			break
+		}
+	}
+	return mountIdx
 }
 
 // GetHandler parses the resource name and gets the registered handler,
